@@ -38,7 +38,8 @@ func String(str string, t reflect.Type) (reflect.Value, error) {
 			if parseErr != nil {
 				return reflect.Value{}, fmt.Errorf("parse error of item %d %q: %s", idx, strVal, parseErr)
 			}
-			castSlice = reflect.Append(castSlice, castVal.Elem())
+			// convert so that slices of user-defined element types (type Level uint8) work
+			castSlice = reflect.Append(castSlice, castVal.Elem().Convert(t.Elem()))
 		}
 		return castSlice, nil
 
